@@ -4,8 +4,11 @@ Correspondence of PxModel/FirstRequest.lean (+ Parser/Build/Responses/WfResponse
 HttpProtocolHandler driven in-process (harness/sim.py), the real response builders, and the
 property oracle: what the client would read is nothing (waiting), or one response accepted by the
 independent parser h11 with a body consistent with its framing, followed by teardown."""
+import os
 import gzip
+import json
 import errno
+import tempfile
 import signal
 import socket
 import logging
@@ -18,15 +21,15 @@ PROPERTY = 'C06'
 LEAN_TARGETS = ['PxProofs.C06']
 THEOREMS = [
     'Px.First.C06_total', 'Px.First.C06_exclusive', 'Px.First.C06_trace', 'Px.First.C06_reject_stops_reading',
-    'Px.First.C06_crash_escapes', 'Px.Parser.C06_parse_fuel', 'Px.Parser.C06_former_hangs_terminate',
+    'Px.First.C06_crash_escapes', 'Px.ParseFuel.C06_parse_fuel', 'Px.ParseFuel.C06_former_hangs_terminate',
     'Px.Wf.C06_canned', 'Px.Wf.C06_canned_built', 'Px.Wf.C06_builders', 'Px.Wf.C06_builders_ok',
     'Px.Wf.C06_builders_redirect', 'Px.Wf.C06_builders_rejected', 'Px.Wf.C06_builders_ws',
     'Px.Wf.C06_builder_injection_witness', 'Px.Wf.C06_ws_handshake_cl_witness',
 ]
 RULE = ('run: a client byte string (HTTP grammar + repeated httpgen.mutate; random bytes; oversized / non-numeric / '
-        'negative / repeated lengths; unknown schemes, methods, versions; non-UTF-8; the two former hang inputs) under '
-        'a segmentation, through the real HttpProtocolHandler (default flags or --enable-web-server; patched connect '
-        'that succeeds or fails); per segment: outcome class, client buffer, handle_data result, must-flush, teardown, '
+        'negative / repeated lengths; unknown schemes, methods, versions; non-UTF-8; the two former hang inputs; '
+        'follow-up bytes after a served request) under a segmentation, through the real HttpProtocolHandler (default '
+        'flags, --enable-web-server, or web + static file server; patched connect that succeeds or fails); per segment: outcome class, client buffer, handle_data result, must-flush, teardown, '
         'read interest vs the model.  build/wf: argument tuples of the response builders vs the Build/Responses models, '
         'and WF_response vs h11 on canned, built and damaged responses.  distinct by canonical JSON; non-trivial = run '
         'case that reaches a reject or served outcome, or an in-guard builder case')
@@ -118,6 +121,7 @@ class Rec:
         self.cds = []           # tokens for on_client_data, in call order
         self.last = None        # (hook, pid, kind, td, hq-relevant response)
         self.parse_exc = None
+        self.pname = None
 
 
 def _wrap(h, rec, flags):
@@ -139,6 +143,7 @@ def _wrap(h, rec, flags):
     def init(klass):
         plugin = real_init(klass)
         pid = klasses.index(klass)
+        rec.pname = klass.__name__
 
         def hook(name, real):
             def run(*a):
@@ -182,13 +187,48 @@ def _wrap(h, rec, flags):
     h.handle_data = handle_data
 
 
+STATIC_DIR = os.path.join(tempfile.gettempdir(), 'verif-c06-static')
+
+
+def _static_dir():
+    """fixture for --enable-static-server: two small files (created once, content fixed)"""
+    if not os.path.exists(os.path.join(STATIC_DIR, 'big.txt')):
+        os.makedirs(STATIC_DIR, exist_ok=True)
+        for name, content in (('a.txt', b'hello\n'), ('big.txt', b'0123456789' * 30)):
+            tmp = os.path.join(STATIC_DIR, '.%s.%d' % (name, os.getpid()))
+            with open(tmp, 'wb') as f:
+                f.write(content)
+            os.replace(tmp, os.path.join(STATIC_DIR, name))
+    return STATIC_DIR
+
+
+def flag_args(case):
+    """web: 0 = default flags, 1 = --enable-web-server, 2 = web server + static file server"""
+    web = case.get('web', 0)
+    if web == 1:
+        return ['--enable-web-server']
+    if web == 2:
+        return ['--enable-web-server', '--enable-static-server', '--static-server-dir', _static_dir()]
+    return []
+
+
 def drive(case):
     """Feed the segments to a fresh real handler.  Returns (per-segment observation strings, rec,
     per-segment dicts for the oracle)."""
+    from proxy.http import responses as R
+    old_gzip = R.gzip
+    R.gzip = _GzShim()          # okResponse of the static server: same bytes in every run
+    try:
+        return _drive(case)
+    finally:
+        R.gzip = old_gzip
+
+
+def _drive(case):
     from harness import sim
     logging.disable(logging.CRITICAL)
     segs = [bytes.fromhex(s) for s in case['segs']]
-    args = ['--enable-web-server'] if case.get('web') else []
+    args = flag_args(case)
     out, infos = [], []
     rec = Rec()
     with sim.World(args=args, strict=False) as w:
@@ -208,6 +248,7 @@ def drive(case):
             n0 = len(h.work.buffer)
             rec.last = None
             rec.parse_exc = None
+            hq = []
             cs.script_recv(('data', s))
             td = w.tick(h, [fd], [])
             esc = isinstance(td, tuple)
@@ -221,7 +262,7 @@ def drive(case):
                     cls = 'served' if hook == 'oc' else 'data'
                 elif kind == 'raise':
                     hq = [resp] if resp else []
-                    o = 'reject:plugin:%d:%s' % (pid, bl(hq))
+                    o = 'reject:plugin:%d' % pid
                     cls = 'reject'
                 else:
                     o = 'escaped:%d' % pid
@@ -229,12 +270,12 @@ def drive(case):
             elif ret == 'exc':
                 o, cls = 'escaped:?', 'escaped'          # the handler itself let an exception out
             elif rec.parse_exc is not None:
-                o = 'reject:parse:%s:%s' % (rec.parse_exc, bl(added))
-                cls = 'reject'
+                o = 'reject:parse:%s' % rec.parse_exc
+                cls, hq = 'reject', added
             elif ret is True:
                 proto = h.request.http_handler_protocol
-                o = ('reject:unknown:%s' % bl(added)) if proto == 1 else 'reject:noplugin:%d:%s' % (proto, bl(added))
-                cls = 'reject'
+                o = 'reject:unknown' if proto == 1 else 'reject:noplugin:%d' % proto
+                cls, hq = 'reject', added
             elif h.request.state != 6:
                 o, cls = 'wait', 'wait'
             else:
@@ -245,11 +286,11 @@ def drive(case):
             ev2 = w.events(h)
             ri = (not dead) and bool(ev2.get(fd, 0) & selectors.EVENT_READ)
             ps = 'st=? tot=?' if rec.parse_exc is not None else 'st=%d tot=%d' % (h.request.state, h.request.total_size)
-            out.append('o=%s q=%s ret=%d mf=%d td=%d esc=%d ri=%d %s' % (
-                o, bl(buf), 1 if ret is True else 0, int(h.must_flush_before_shutdown), int(tdb), int(esc), int(ri), ps))
+            out.append('o=%s hq=%s q=%s ret=%d mf=%d td=%d esc=%d ri=%d %s' % (
+                o, bl(hq), bl(buf), 1 if ret is True else 0, int(h.must_flush_before_shutdown), int(tdb), int(esc), int(ri), ps))
             infos.append({'o': cls, 'buf': buf, 'added': added, 'ret': ret, 'mf': h.must_flush_before_shutdown,
                           'td': tdb, 'esc': esc, 'ri': ri, 'tunnel': bool(h.request.is_https_tunnel),
-                          'hook': (rec.last[0] if rec.last else None)})
+                          'hook': (rec.last[0] if rec.last else None), 'pname': rec.pname})
     return out, rec, infos
 
 
@@ -375,10 +416,10 @@ _PLUGINS = {}
 
 def case_plugins(case):
     """flags.plugins[b'HttpProtocolHandlerPlugin'] as the model wants it: protocols() per class"""
-    web = bool(case.get('web'))
+    web = case.get('web', 0)
     if web not in _PLUGINS:
         from harness import sim
-        with sim.World(args=['--enable-web-server'] if web else [], strict=False) as w:
+        with sim.World(args=flag_args(case), strict=False) as w:
             ks = w.flags.plugins.get(b'HttpProtocolHandlerPlugin', [])
             _PLUGINS[web] = ','.join('.'.join(str(p) for p in k.protocols()) or 'e' for k in ks) or '-'
     return _PLUGINS[web]
@@ -494,7 +535,11 @@ def _oracle(case):
             if info['hook'] is None:
                 # not a plugin hook: the handler itself let an exception out instead of answering 400
                 return 'exception-escapes-handle-data'
-            # a non-protocol exception of plugin code: the executor closes the connection (C05)
+            # a non-protocol exception of plugin code: the executor closes the connection (C05) and the
+            # client gets no answer at all.  Judged a defect exactly when known_findings.json records it.
+            fid = crash_finding(info)
+            if fid in RECORDED:
+                return CRASH_SIG + ':' + fid
             if sent:
                 why = h11_check(sent, 'other')
                 if why:
@@ -525,6 +570,44 @@ def _oracle(case):
 
 def oracle(case):
     return guarded(_oracle, case)
+
+
+CRASH_SIG = 'closed-without-response-after-unhandled-exception'
+
+
+def crash_finding(info):
+    """which recorded finding (if any) covers a plugin hook that let a non-protocol exception escape"""
+    if info.get('hook') == 'cd':
+        return 'D29'       # follow-up bytes handed to on_client_data
+    if info.get('pname') == 'HttpProxyPlugin':
+        return 'D27'       # on_request_complete of the proxy plugin (target that is not UTF-8)
+    return 'D28'           # on_request_complete of the web server plugin (static path with NUL / non-UTF-8)
+
+
+def _recorded():
+    try:
+        here = os.path.dirname(os.path.dirname(os.path.abspath(__file__)))
+        fs = json.load(open(os.path.join(here, 'known_findings.json')))['findings']
+        return {f['id'] for f in fs if f.get('property') == PROPERTY and f.get('status') == 'open'}
+    except Exception:
+        return set()
+
+
+RECORDED = _recorded()
+
+
+def classify(case, sig):
+    if sig and sig.startswith(CRASH_SIG + ':'):
+        return sig.rsplit(':', 1)[1]
+    return None
+
+
+def finding_witnesses():
+    return {
+        'D27': _run([b'GET http://\xff/ HTTP/1.1\r\n\r\n'], 0, 'ok'),
+        'D28': _run([b'GET /a\x00.txt HTTP/1.1\r\n\r\n'], 2, 'ok'),
+        'D29': _run([b'GET http://h/ HTTP/1.1\r\n\r\n', b'POST http://h/ HTTP/1.1\r\nContent-Length: zz\r\n\r\n'], 0, 'ok'),
+    }
 
 
 # --------------------------------------------------------------------------------------------
@@ -640,8 +723,26 @@ def segmentations(rng, raw, n):
     return out
 
 
+STATIC_FIXED = [
+    b'GET /a.txt HTTP/1.1\r\n\r\n', b'GET /big.txt HTTP/1.1\r\nAccept-Encoding: gzip\r\n\r\n', b'GET /none HTTP/1.1\r\n\r\n',
+    b'GET /a.txt?x=1 HTTP/1.0\r\n\r\n', b'GET /../a.txt HTTP/1.1\r\n\r\n', b'GET /a\x00.txt HTTP/1.1\r\n\r\n',
+    b'GET /\xff HTTP/1.1\r\n\r\n', b'HEAD /a.txt HTTP/1.1\r\n\r\n', b'POST /a.txt HTTP/1.1\r\nContent-Length: 2\r\n\r\nhi',
+]
+FOLLOW_UPS = [
+    b'POST http://h/ HTTP/1.1\r\nContent-Length: zz\r\n\r\n', b'GARBAGE\r\n\r\n', b'GET http://h/2 HTTP/1.1\r\n\r\n',
+    b'GET ftp://h/ HTTP/1.1\r\n\r\n', b'\x00\xff', b'POST http://h/ HTTP/1.1\r\nTransfer-Encoding: chunked\r\n\r\n-1\r\nX',
+]
+
+
 def corpus():
     cs = []
+    for raw in STATIC_FIXED:
+        cs.append(_run([raw], 2, 'ok'))
+        cs.append(_run([raw[:7], raw[7:]], 2, 'ok'))
+    for fu in FOLLOW_UPS:
+        for plan in ('ok', 'refuse'):
+            cs.append(_run([b'GET http://h/ HTTP/1.1\r\n\r\n', fu], 0, plan))
+        cs.append(_run([b'CONNECT h:443 HTTP/1.1\r\n\r\n', fu], 0, 'ok'))
     for raw in FIXED:
         for web in (0, 1):
             for plan in ('ok', 'refuse'):
@@ -846,8 +947,11 @@ def generate(rng, tier):
         raw, fam = gen_stream(rng)
         if not raw:
             continue
-        web = rng.randrange(2)
+        web = rng.choice([0, 0, 1, 1, 2])
         plan = rng.choice(['ok', 'ok', 'refuse', 'refuse', 'gaierror', 'timeout'])
+        if fam == 'grammar' and rng.random() < 0.15:
+            # a follow-up after a complete first request (goes to the plugin's on_client_data)
+            raw = b'GET http://h/ HTTP/1.1\r\n\r\n' + raw
         nseg = 3 if big else 2
         for segs in segmentations(rng, raw, nseg):
             c = _run(segs, web, plan)
@@ -888,7 +992,7 @@ def neighbours(case):
     raw = b''.join(bytes.fromhex(s) for s in case['segs'])
     if len(raw) > 300:
         return
-    for web in (0, 1):
+    for web in (0, 1, 2):
         for plan in ('ok', 'refuse'):
             yield dict(case, web=web, plan=plan, segs=[raw.hex()])
     for i in range(1, len(raw), max(1, len(raw) // 6)):
